@@ -5,6 +5,7 @@ use egv::targets::*;
 use egv::util::*;
 use egv::*;
 use embedded_graphics::{
+    Pixel,
     pixelcolor::Rgb565,
     prelude::*,
     primitives::{ContainsPoint, Rectangle},
@@ -51,6 +52,12 @@ fn run_case(rec: &mut Rec, d: &Value) {
         let mut t = MapTarget::<C>::new();
         s.draw(&st, &mut t).unwrap();
         let (px, done) = s.pixels(&st, 2_000_000);
+        // pixels() through count / last / nth / size_hint / mixed consumption (small shapes)
+        let pproto = if done && px.len() <= 250 {
+            json!({"seq": pts_json(px.iter().map(|Pixel(p, _)| *p)), "proto": s.pixels_protocol(&st, 1 + px.len() % 3)})
+        } else {
+            json!({})
+        };
         let mut tp = MapTarget::<C>::new();
         tp.draw_iter(px.into_iter()).unwrap();
         // the same draw() on targets that REPORT a small window as their bounding box (everything they receive is
@@ -71,10 +78,10 @@ fn run_case(rec: &mut Rec, d: &Value) {
             s.draw(&st, &mut tw).unwrap();
             wobs.push(json!({"box": rect_json(&wbox), "map": cruns_of(&tw.map)}));
         }
-        (fb, sb, shb, env, f, sset, c, t, tp, done, wobs)
+        (fb, sb, shb, env, f, sset, c, t, tp, done, wobs, pproto)
     });
     match r {
-        Ok((fb, sb, shb, env, f, sset, c, t, tp, done, wobs)) => {
+        Ok((fb, sb, shb, env, f, sset, c, t, tp, done, wobs, pproto)) => {
             if !t.map.is_empty() {
                 rec.nontrivial();
             }
@@ -85,7 +92,7 @@ fn run_case(rec: &mut Rec, d: &Value) {
                 "styled",
                 json!({"kind": s.kind(), "style": d["style"], "shape_box": rect_json(&shb), "fill_box": rect_json(&fb),
                     "stroke_box": rect_json(&sb), "region": rect_json(&env), "F": runs_of(&f), "S": runs_of(&sset), "C": runs_of(&c),
-                    "draw": cruns_of(&t.map), "pixels": cruns_of(&tp.map), "trunc": (!done) as i32, "wins": wobs}),
+                    "draw": cruns_of(&t.map), "pixels": cruns_of(&tp.map), "trunc": (!done) as i32, "wins": wobs, "pproto": pproto}),
             );
         }
         Err(p) => {
